@@ -1,6 +1,7 @@
 """C17 — the debugger's view of source and symbols matches the assembler's."""
 import re
 from ..facts import callee_of, short, sp_file_line, expr_str, expr_walk, place_is_local
+from .. import tables
 from .. import kit, dbg
 from ..effects import Effects
 from ..linear import lin, show, same
@@ -13,7 +14,7 @@ EXPLANATION = (
     "to offs+len of the consumed token on its success path, and the statement span is [first.offs, tok_end) or the "
     "mnemonic's own span. R4: directive words carry join(directive, literal), and join is [min offs, max end). "
     "R5 (EFF): the debugger's source view is built from the very AIR the image was emitted from and is never written."
-    ' R4 is decided on emission summaries with call identity (directive token vs operand token). R7: a prefix label taken by the parser is entered into the symbol table on every way to the next statement.'
+    ' R4 is decided on emission summaries with call identity (directive token vs operand token). R7: a prefix label taken by the parser is entered into the symbol table on every way to the next statement. R8: the functions of the source view that print a slice of the stored source do so under an output category whose writer arm does not scan the text (the markup categories are read from DebuggerWriter::write_str). R9 (TAB): every lexer scan that can end in an identifier has a predicate that is false on each separator character of the lexer (is_whitespace evaluated over ASCII), so a label name never contains its colon.'
 )
 NOT_DECIDED = "equality of the shown text with the intended statement text for every layout (comments glued to operands etc.)"
 
@@ -363,7 +364,6 @@ def run(ctx):
 
     # ------------------------------------------------------------------ R6
     ctx.rule("C17.R6", "the debugger reads names with the assembler's alphabet: a register is r/R + 0-7 + end of identifier, labels use the lexer's identifier characters", floor=3)
-    from .. import tables
     ISID = "lace::lexer::is_id"
     LBL = "lace::debugger::command::parse::label::"
     ctx.fn(ISID)
@@ -427,6 +427,103 @@ def run(ctx):
                           "parse() can take a prefix label and move on to the next statement without entering it into the symbol table (path lines %s): "
                           "the labelled statement is assembled, but the debugger answers Labels::NotFound for its name"
                           % (pf.path_lines(p) if p else "?"))
+    ctx.finish_rule()
+
+    # ------------------------------------------------------------------ R8
+    # the statement text is shown as it stands: the functions that print a slice of the stored source do so under an output category whose
+    # writer passes text through - not under one whose writer arm scans the text for markup (`{...}` is cut out or turned into an escape code)
+    ctx.rule("C17.R8", "source text is printed under a category that does not rewrite it", floor=2)
+    CAT = "lace::output::Category"
+    wr = [f for n, f in prog.fns.items() if f.bkind == "fn" and re.search(r"output::DebuggerWriter as core::fmt::Write>::write_str$", n)]
+    ctx.need(len(wr) == 1, "the debugger writer's write_str")
+    wr = wr[0]
+    cat_adt = prog.adt(CAT)
+    ctx.need(cat_adt is not None, "the output Category enum")
+    vname = {v["idx"]: v["name"] for v in cat_adt["variants"]}
+    markup = set()
+    nsw = 0
+    for sb, place, targets, oth in kit.discr_switches(wr, CAT):
+        nsw += 1
+        shared = None
+        for vi, tb in targets.items():
+            # blocks only this arm reaches before the arms join (or the function returns)
+            others = set()
+            for vj, tj in targets.items():
+                if tj != tb:
+                    others |= wr.reachable(tj)
+            own = wr.reachable(tb) - others
+            scans = any(c and re.search(r"Chars<'a> as core::iter::traits::iterator::Iterator>::next$|CharIndices<'a> as core::iter::traits::iterator::Iterator>::next$|str>::(replace|replacen|find|split)$", c)
+                        for b, t, c in wr.calls() if b in own)
+            if scans:
+                markup.add(vname.get(vi, str(vi)))
+    ctx.need(nsw >= 1, "match on the category in the debugger writer")
+    ctx.instance(1)
+    ctx.oblig(True, {"categories whose writer arm scans the text": sorted(markup)}, "read from DebuggerWriter::write_str")
+    nshow = 0
+    for n, f in sorted(prog.fns.items()):
+        if f.bkind != "fn" or not n.startswith("lace::debugger::asm::"):
+            continue
+        pcs = [(b, t) for b, t, c in f.calls() if c == "lace::output::Output::print_category"]
+        if not pcs:
+            continue
+        reads_src = any(c and re.search(r"Index<I> for str>::index$|str>::get$", c) and "src" in expr_str(f.expr(t["args"][0], 6), 200) for b, t, c in f.calls())
+        if not reads_src:
+            continue
+        for b, t in pcs:
+            nshow += 1
+            ctx.instance(1)
+            e = kit.strip_refs(f.expr(t["args"][1], 6))
+            cat = e[1][2] if e[0] == "agg" and e[1][0] == "adt" and len(e[1]) > 2 else None
+            ok = cat is not None and cat not in markup
+            ctx.oblig(ok, {"source text printed in": short(n), "category": cat}, "not a markup category")
+            if not ok:
+                ctx.violation("source-text-category|%s" % short(n), sp_file_line(t.get("sp")),
+                              "`%s` prints the statement text under category %s, whose writer arm scans the text for `{...}` markup: a statement containing a brace "
+                              "(a .stringz literal) is shown with the braced part cut out" % (short(n), cat or "computed at run time"))
+    ctx.need(nshow >= 1, "a function of the source view that prints a slice of the stored source")
+    ctx.finish_rule()
+
+    # ------------------------------------------------------------------ R9
+    # a name ends where a separator begins: every scan of the lexer that can end in an identifier (the identifier routine itself, and the literal
+    # scanners that fall back to it) stops at each character the lexer treats as a separator (blank, `,`, `:`); a scan that runs across one
+    # puts the `:` of `xsum:` into the label's name, and the debugger then cannot find `xsum`
+    ctx.rule("C17.R9", "identifier-producing scans stop at every separator character", floor=3)
+    IDENT = "lace::lexer::<impl lexer::cursor::Cursor<'_>>::ident"
+    SEPF = "lace::lexer::is_whitespace"
+    ctx.fn(IDENT); ctx.fn(SEPF)
+    seps = {c for c in tables.char_pred_set(prog, SEPF) if c < 128}
+    ctx.need({32, 44, 58} <= seps, "separator characters of the lexer (blank, comma, colon): {%s}" % tables.show_chars(seps))
+    nscan = 0
+    for n, f in sorted(prog.fns.items()):
+        if f.bkind != "fn" or not n.startswith("lace::lexer::"):
+            continue
+        idcalls = {b for b, t, c in f.calls() if c == IDENT}
+        for b, t, c in f.calls():
+            if not (c and c.endswith("Cursor::<'sess>::take_while")):
+                continue
+            if not (n == IDENT or (t.get("t") is not None and idcalls & f.reachable(t["t"]))):
+                continue
+            preds = [x[3:] if x.startswith("fn:") else x for x in t["f"].get("closures", [])]
+            preds = [x for x in preds if x in prog.fns]
+            nscan += 1
+            ctx.instance(1)
+            if len(preds) != 1:
+                ctx.oblig(False, {"scan in": short(n)}, "predicate not found")
+                ctx.violation("scan-predicate|%s" % short(n), sp_file_line(t.get("sp")), "the predicate of a scan in `%s` that can end in an identifier could not be read" % short(n))
+                continue
+            try:
+                crossed = sorted(c_ for c_ in seps if tables._eval_pred(prog, preds[0], c_) != 0)
+            except Exception as ex:
+                crossed = None
+                why_ = "%s: %s" % (type(ex).__name__, ex)
+            ok = crossed == []
+            ctx.oblig(ok, {"scan in": short(n), "predicate": short(preds[0]), "separators": tables.show_chars(seps)}, "false on every separator")
+            if not ok:
+                ctx.violation("scan-crosses-separator|%s" % short(n), sp_file_line(t.get("sp")),
+                              "a scan in `%s` that can end in an identifier %s: the separator becomes part of the name (a label written `name:` is entered "
+                              "as `name:` and the debugger cannot resolve `name`)"
+                              % (short(n), ("keeps reading across {%s}" % tables.show_chars(crossed)) if crossed is not None else "has a predicate that could not be evaluated (%s)" % why_))
+    ctx.need(nscan >= 3, "scans that can end in an identifier (hex, dec, ident): found %d" % nscan)
     ctx.finish_rule()
 
 
